@@ -194,7 +194,7 @@ def fusion_replay(ctx: Ctx) -> int:
     if r.violated:
         raise MachineryError(f"J2O_Fusion: {r.violated} violated")
     cleanup_tlc(r)
-    for dev, inv in (("pow_exponent_truncated", "FusionSound"), ("mul_any_operands", "FusionSound"), ("digitize_strict", "DigitizeLaws")):
+    for dev, inv in (("pow_exponent_truncated", "FusionSound"), ("mul_any_operands", "FusionSound"), ("digitize_strict", "DigitizeLaws"), ("lpnorm_ignores_layout", "LpNormSound"), ("mean_on_integers", "MeanSound")):
         rd = run_tlc("MC_Fusion", f"MC_FusionDev_{dev}.cfg", timeout=600, workers=2, coverage=False)
         if rd.violated != inv:
             raise MachineryError(f"J2O_Fusion deviation {dev} should violate {inv} (non-vacuity), got {rd.violated!r}")
